@@ -336,7 +336,7 @@ def run(ctx):
         coq_shards=[dict(shard=i["shard"], n=i["n"], rc=i["rc"], wall_s=round(i["wall"], 1)) for i in infos],
     ), assumptions=[
         "the clock is not injectable: ages are sampled 200 ms / 1 s / x10 away from maxAge on both sides; the exact boundary (strict <) is proved in the model only",
-        "every time.Now() taken while a plan is aged out is represented by one stamp; observed end times inside [t0,t1] of the New call are identified with it",
+        "the one clock reading a close writes (the End of the plan row) is represented by one stamp: an observed plan-row End inside [t0,t1] of the New call is identified with it; every other stamp, also the End of the closed children (= lastUpdate(plan) since f93b03f), is compared exactly",
         "store operations are assumed to succeed (Search/Read/Update* errors abort recovery in the code; not modelled)",
         "resumption is observed as 'plugin call or vault write for the plan'; what a resumed plan then does is C09/C10's matter, a resumed plan that misses the deadline is only counted",
         "Wait's knowledge of an id is not directly observable through the public API (Workstream.Wait falls back to Read for unknown ids); it is observed through the waiting itself",
